@@ -1852,8 +1852,6 @@ func (ls *LState) PCall(nargs, nret int, errfunc *LFunction) (err error) {
 				err = rcv.(*ApiError)
 			}
 			if errfunc != nil {
-				ls.Push(errfunc)
-				ls.Push(err.(*ApiError).Object)
 				ls.Panic = panicWithoutTraceback
 				defer func() {
 					ls.Panic = oldpanic
@@ -1876,6 +1874,10 @@ func (ls *LState) PCall(nargs, nret int, errfunc *LFunction) (err error) {
 						ls.reg.SetTop(base)
 					}
 				}()
+				// pushed under the recovery above: with a full registry these pushes
+				// themselves overflow, and that error belongs to this protected call
+				ls.Push(errfunc)
+				ls.Push(err.(*ApiError).Object)
 				ls.Call(1, 1)
 				err = newApiError(ApiErrorError, ls.Get(-1))
 			} else if len(err.(*ApiError).StackTrace) == 0 {
